@@ -123,9 +123,11 @@ CLAIMED = {
             'exclusive, monotone, thresholds at the calibration mid-points), fuel-sulfur stoichiometry (sulfur atoms conserved), NOx '
             'speciation (fractions sum to one), BFFM2 NOx (log-log least-squares fit with the eq. 44/45 humidity / theta / delta '
             'correction; NO+NO2+HONO = NOx; non-negative) and FOA3 volatile PM are executed symbolically on arrays of symbolic '
-            'length and proved equal to spec functions written from the cited equations. Bounded part: EI_HCCO and SCOPE11 are '
-            'compared with independent reference implementations, and linear scaling checked, on sampled data sets; MEEM is not '
-            'covered.',
+            'length and proved equal to spec functions written from the cited equations; so are the BFFM2 HC/CO bilinear fit (slanted / '
+            'horizontal segments, SAGE clamping rules, ACRP low-thrust factor, ambient factor; all 63 rule paths) and SCOPE11 (all '
+            'patterns of valid / invalid smoke numbers, both engine kinds, any bypass ratio; non-negative). Bounded part: the MEEM '
+            'estimate (finite, non-negative, linear in its certification indices) and, again, EI_HCCO / SCOPE11 against independent '
+            'reference implementations on sampled data sets.',
             'floats as reals; pow/exp/log10/sqrt uninterpreted with axiom instances (listed in the evidence); np.polyfit(deg 1) = '
             'closed-form least squares, np.interp, np.select, np.where models; the humidity term of BFFM2 is assumed defined '
             '(P > phi*Pv) on 200-320 K / >= 2 kPa; the publications are not available offline, constants are those of the '
